@@ -2,6 +2,7 @@
 from __future__ import annotations
 
 import ast
+import re
 import itertools
 from typing import Dict, List, Optional, Set
 
@@ -325,8 +326,19 @@ def check(P: Project, R: Report) -> None:
     R.need(gn is not None, "anchor: _get_non_none_type not found")
     rets = [r for r in walk_local(gn) if isinstance(r, ast.Return) and r.value is not None]
     opt_rets = [r for r in rets if ast.unparse(r.value) != gn.args.args[0].arg]
-    keeps_all = bool(opt_rets) and all(any(isinstance(s, ast.Subscript) and ast.unparse(s.value).split(".")[-1] == "Union" for s in ast.walk(r.value)) for r in opt_rets)
-    first_only = any("next(" in ast.unparse(r.value) for r in opt_rets) or any(ast.unparse(r.value).endswith("[0]") for r in opt_rets)
+
+    def single_member_guard(r) -> bool:
+        """`return args[0]` is fine exactly when it sits under a test that only one member is left"""
+        for i in walk_local(gn):
+            if isinstance(i, ast.If) and any(r is x for s_ in i.body for x in walk_local(s_)) and re.search(r"len\(\w+\)\s*==\s*1", ast.unparse(i.test)):
+                return True
+            if isinstance(i, ast.IfExp) and r.value is i:
+                return bool(re.search(r"len\(\w+\)\s*==\s*1", ast.unparse(i.test)))
+        return False
+
+    firsts = [r for r in opt_rets if ("next(" in ast.unparse(r.value) or ast.unparse(r.value).endswith("[0]")) and not isinstance(r.value, ast.IfExp)]
+    keeps_all = bool(opt_rets) and any(any(isinstance(s, ast.Subscript) and ast.unparse(s.value).split(".")[-1] == "Union" for s in ast.walk(r.value)) for r in opt_rets)
+    first_only = any(not single_member_guard(r) for r in firsts)
     R.ob("R5", "Optional[Union[...]] keeps all non-None members", keeps_all and not first_only, f"{base_rel}:{gn.lineno}",
          f"_get_non_none_type returns {[ast.unparse(r.value)[:60] for r in opt_rets]}: Optional[Union[int, str]] (the legacy envelope's id) collapses to its first member")
     # the envelope ids really are Union[int, str] (same order for every envelope)
